@@ -66,7 +66,9 @@ LIMITS = [None, 0, 1, 2, 5, 100]
 
 
 def extract(repo, lean):
-    return c12_extract.extract(repo, lean)
+    from tools import c12_rules_static
+
+    return c12_extract.extract(repo, lean) + c12_rules_static.extract(repo, lean)
 
 
 # --------------------------------------------------------------------------------------------------
